@@ -4,6 +4,7 @@ import (
 	"crypto/tls"
 	"crypto/x509"
 	"fmt"
+	"log"
 
 	"github.com/fabiolb/fabio/config"
 	"golang.org/x/sync/singleflight"
@@ -143,6 +144,11 @@ func TLSConfig(src Source, strictMatch bool, minVersion, maxVersion uint16, ciph
 
 	go func() {
 		for certs := range src.Certificates() {
+			// a source that suddenly has nothing must not take away the certificates in use
+			if len(certs) == 0 && len(store.certstore().Certificates) > 0 {
+				log.Printf("[ERROR] cert: Source delivered no certificates. Keeping the current ones")
+				continue
+			}
 			store.SetCertificates(certs)
 		}
 	}()
